@@ -147,6 +147,32 @@ def build_pn53x(sx, driver, n, mutable):
     return "built"
 
 
+def abort_pn53x(sx, driver, n):
+    """the chip acknowledges a command and then does not answer within the
+    time-out: the driver cancels the command with an ACK frame - which is a
+    frame written to the device like any other (Arygon: with its '2' prefix)"""
+    cs, link = make_chipset(sx, driver)
+    code = sx.pick("code", sorted(cs.CMD)[:3])
+    payload = sx.bytes("p", n)
+    link.begin()
+    link.raw = [list(ACK)]             # ACK only, then silence
+    try:
+        cs.command(code, payload, 0.1)
+        sx.check(False, "command-returned-without-a-response:" + driver)
+    except IOError as e:
+        sx.check(e.errno == errno.ETIMEDOUT, "response-timeout-not-ETIMEDOUT:" + driver)
+    if len(link.written) != 2:
+        sx.check(False, "abort-wrote-%d-frames:%s" % (len(link.written), driver))
+    f = list(link.written[1])
+    if driver.startswith("arygon"):
+        if not f or f[0] != 0x32:
+            sx.check(False, "abort-frame-without-arygon-prefix:" + driver)
+        f = f[1:]
+    sx.check(f == list(ACK), "abort-frame-is-not-an-ack-frame:" + driver)
+    sx.reach("aborted:pn53x")
+    return "aborted"
+
+
 def build_ccid(sx, n):
     cs, link = make_chipset(sx, 'acr122')
     code = sx.pick("code", sorted(cs.CMD))
@@ -691,6 +717,8 @@ def init_pn532_tty(sx, accept, board, port):
 def partitions(tier):
     q = tier == "quick"
     parts = []
+    for d in ("pn531", "pn532", "pn533", "rcs956", "arygonA", "arygonB"):
+        parts.append(dict(name="abort:%s" % d, fn="abort_pn53x", params=dict(driver=d, n=2)))
     for i, accept in enumerate(([921600, 460800, 230400, 115200], [460800, 230400, 115200],
                                 [230400, 115200], [115200], [])):
         for board, port in ((None, "/dev/ttyUSB0"), (b"Raspberry Pi 3 Model B\x00", "/dev/ttyUSB0"),
@@ -774,7 +802,7 @@ def partitions(tier):
     return parts
 
 
-MUST_REACH = ["init:pn532:tty", "init:pn532:baudrate-changed", "built:pn53x:normal", "built:pn53x:extended", "built:ccid",
+MUST_REACH = ["aborted:pn53x", "init:pn532:tty", "init:pn532:baudrate-changed", "built:pn53x:normal", "built:pn53x:extended", "built:ccid",
               "built:rcs380", "accepted:pn53x", "rejected:pn53x",
               "errorframe:pn53x", "accepted:long:normal",
               "accepted:long:extended", "valid:accepted", "accepted:ccid",
